@@ -1144,6 +1144,9 @@ var _ = wire.RegisterInterface(
 
 // TODO: check for unnecessary extra bytes at the end.
 func DecodeMessage(bz []byte) (msgType byte, msg ConsensusMessage, err error) {
+	if len(bz) == 0 {
+		return 0, nil, fmt.Errorf("DecodeMessage: empty message")
+	}
 	msgType = bz[0]
 	n := new(int)
 	r := bytes.NewReader(bz)
